@@ -488,6 +488,7 @@ class C12(LockCheck):
     components = ['mcs']
     theorems = ['CppUtil.Props.c12_unlockS_recycle_test', 'CppUtil.Props.c12_unlockX_recycle_test',
                 'CppUtil.Props.c12_unlockS_tail_test', 'CppUtil.Props.c12_mcs_no_use_after_free',
+                'CppUtil.Props.c12_mcs_live_nodes_accounted', 'CppUtil.Props.c12_mcs_no_leak_at_quiescence',
                 'CppUtil.Props.mcs_invariant'] + MCS_BITS
     categories = ['nodes']
 
